@@ -380,7 +380,7 @@ fn run(ctx: &mut Ctx) {
 
 fn finish(m: &Merged, tier: Tier) -> Finish {
     let mut f = Finish {
-        rule: "rule texts are assembled from kept parts — comment lines (indentation, content, empty, triple slash, position before/between/after metadata and expression lines), metadata items (constants printed by the harness from generated Value trees, duplicates, @name/@description of string and non-string type, non-constant values, alternative spellings of constants), 1-2 expression lines with or without trailing comments, \\n or \\r\\n — and Rule::parse must return exactly the name / description / metadata / expression (or the error kind) that a 40-line model of the statement computes from the parts. Every case is non-trivial; distinct by rule text".into(),
+        rule: "rule texts are assembled from kept parts — comment lines (indentation, content, empty, triple slash, position before/between/after metadata and expression lines), metadata items (constants printed by the harness from generated Value trees, duplicates, @name/@description of string and non-string type, non-constant values, alternative spellings of constants), metadata nested 3-120 levels / lists of up to 3000 items / 40 items per rule, comment padding drawn from every White_Space character (and look-alike non-spaces that must be kept), 1-2 expression lines with or without trailing comments (texts with lone quotes, backslashes, //, @k: i1;), \\n or \\r\\n — and Rule::parse must return exactly the name / description / metadata / expression (or the error kind) that a 40-line model of the statement computes from the parts. Every case is non-trivial; distinct by rule text".into(),
         exhaustive: false,
         exhaustive_part: "the grid comments 0..3 x metadata 0..3 x 14 expression texts x 2 line endings x final newline yes/no is covered completely, with positions/contents drawn at random inside each cell".into(),
         ..Default::default()
